@@ -52,6 +52,7 @@ type c20Update struct {
 	Access   []int    `json:"access,omitempty"`
 	IP       string   `json:"ip,omitempty"`
 	Until    int64    `json:"until,omitempty"` // unix seconds; 0 = permanent (nil)
+	Existing bool     `json:"existing,omitempty"` // acct-update whose new login already exists (must be refused)
 }
 
 type c20Job struct {
@@ -550,10 +551,8 @@ func c20ModelSpec(u c20Update, data []byte) (spec, dir, vis, store string) {
 	case "acct-create":
 		return fmt.Sprintf("C:.account.tmp:%s.yaml:%s", u.Login, hx(data)), "Users", "yaml", "accounts"
 	case "acct-update":
-		if u.NewLogin != u.Login {
-			return fmt.Sprintf("R:.account.tmp:%s.yaml:%s.yaml:%s", u.Login, u.NewLogin, hx(data)), "Users", "yaml", "accounts"
-		}
-		return fmt.Sprintf("T:.account.tmp:%s.yaml:%s", u.Login, hx(data)), "Users", "yaml", "accounts"
+		// the model decides from the directory: same login / rename onto a free login / refused (login exists)
+		return fmt.Sprintf("U:.account.tmp:%s.yaml:%s.yaml:%s", u.Login, u.NewLogin, hx(data)), "Users", "yaml", "accounts"
 	case "acct-delete":
 		return fmt.Sprintf("D:%s.yaml", u.Login), "Users", "yaml", "accounts"
 	}
@@ -624,7 +623,7 @@ func c20Token(r *RNG, n int) string {
 // c20Gen draws one update that is valid in world w and updates w.
 func c20Gen(r *RNG, w *c20World, kindBias string) c20Update {
 	for {
-		k := r.Intn(12)
+		k := r.Intn(13)
 		if kindBias != "" && r.Chance(70) {
 			switch kindBias {
 			case "board":
@@ -633,6 +632,9 @@ func c20Gen(r *RNG, w *c20World, kindBias string) c20Update {
 				k = 1 + r.Intn(4)
 			case "acct":
 				k = 5 + r.Intn(5)
+				if r.Chance(15) {
+					k = 11
+				}
 			case "ban":
 				k = 10
 			}
@@ -725,6 +727,16 @@ func c20Gen(r *RNG, w *c20World, kindBias string) c20Update {
 			}
 			w.logins[i] = nl
 			return c20Update{Kind: "acct-update", Login: l, NewLogin: nl, Name: "R " + c20Token(r, 5), Access: c20RandAccess(r)}
+		case 11: // rename onto an EXISTING login: must be refused, nothing may change
+			if len(w.logins) < 3 {
+				continue
+			}
+			i := 1 + r.Intn(len(w.logins)-1)
+			j := r.Intn(len(w.logins))
+			if i == j {
+				continue
+			}
+			return c20Update{Kind: "acct-update", Login: w.logins[i], NewLogin: w.logins[j], Name: "X " + c20Token(r, 4), Access: c20RandAccess(r), Existing: true}
 		case 9:
 			if len(w.logins) <= 2 {
 				continue
@@ -733,7 +745,7 @@ func c20Gen(r *RNG, w *c20World, kindBias string) c20Update {
 			l := w.logins[i]
 			w.logins = append(append([]string{}, w.logins[:i]...), w.logins[i+1:]...)
 			return c20Update{Kind: "acct-delete", Login: l}
-		default:
+		case 10, 12:
 			ip := w.ips[r.Intn(len(w.ips))]
 			var until int64
 			if r.Chance(60) {
@@ -742,6 +754,16 @@ func c20Gen(r *RNG, w *c20World, kindBias string) c20Update {
 			return c20Update{Kind: "ban-add", IP: ip, Until: until}
 		}
 	}
+}
+
+func c20KindOf(u c20Update) string {
+	if u.Kind == "acct-update" && u.Existing {
+		return "acct-rename-existing"
+	}
+	if u.Kind == "acct-update" && u.Login != u.NewLogin {
+		return "acct-rename"
+	}
+	return u.Kind
 }
 
 // ---------------------------------------------------------------- running the child
@@ -859,8 +881,8 @@ func init() {
 		os.Exit(0)
 	}
 	props["C20"] = func(x *Ctx) {
-		x.rule = "a case = a generated valid sequence of 3..8 persistent updates over a small world (<= 8 logins, <= 6 news paths, 4 addresses) drawn from: board post, news category/bundle create, article post (with and without parent), article delete, category delete, account create / modify / rename / delete, ban add (temporary / permanent); the last update's kind is cycled so that every kind is the in-flight one equally often; the crash point ranges over EVERY system-call boundary of the last update. " +
-			"non-trivial = the last update made at least one system call on the config directory and old != new; distinct = (kind of the in-flight update, its arguments, pre-state listing)"
+		x.rule = "a case = a generated valid sequence of 3..8 persistent updates over a small world (<= 8 logins, <= 6 news paths, 4 addresses) drawn from: board post, news category/bundle create, article post (with and without parent), article delete, category delete, account create / modify / rename onto a free login / rename onto an existing login (must be refused untouched) / delete, ban add (temporary / permanent); the last update's kind is cycled so that every kind is the in-flight one equally often; the crash point ranges over EVERY system-call boundary of the last update. " +
+			"non-trivial = the last update made at least one system call on the config directory and old != new (or is a refused rename onto an existing login); distinct = (kind of the in-flight update, its arguments, pre-state listing)"
 		x.assume = []string{
 			"a kill lands between two system calls (a kill in the middle of one write(2) is not modelled); no power loss (page cache survives)",
 			"the materialised crash states apply the traced calls with POSIX semantics; in the thorough tier they are cross-checked by really killing the child (strace SIGKILL injection on syscall entry)",
@@ -874,7 +896,7 @@ func init() {
 	}
 }
 
-var c20Kinds = []string{"board-post", "news-cat", "news-post", "news-del-art", "news-del-item", "acct-create", "acct-update", "acct-rename", "acct-delete", "ban-add"}
+var c20Kinds = []string{"board-post", "news-cat", "news-post", "news-del-art", "news-del-item", "acct-create", "acct-update", "acct-rename", "acct-rename-existing", "acct-delete", "ban-add"}
 
 func c20Case(c *Case, realKill bool) {
 	r := c.R
@@ -917,12 +939,7 @@ func c20Case(c *Case, realKill bool) {
 	if strings.HasPrefix(wantLast, "acct") {
 		bias = "acct"
 	}
-	kindOf := func(u c20Update) string {
-		if u.Kind == "acct-update" && u.Login != u.NewLogin {
-			return "acct-rename"
-		}
-		return u.Kind
-	}
+	kindOf := c20KindOf
 	for len(ups) < n-1 {
 		ups = append(ups, c20Gen(r, w, bias))
 	}
@@ -980,7 +997,13 @@ func c20Case(c *Case, realKill bool) {
 	lastIdx := len(ups) - 1
 	var lastCalls []c20Call
 	perUpdate := make([][]c20Call, len(ups))
+	preOf := make([]c20State, len(ups))
+	snapped := 0
 	for _, cl := range calls {
+		for snapped < len(ups) && snapped <= cl.Seg {
+			preOf[snapped] = sim.state()
+			snapped++
+		}
 		if cl.Seg == lastIdx && pre == nil {
 			pre = sim.state()
 		}
@@ -992,8 +1015,25 @@ func c20Case(c *Case, realKill bool) {
 		}
 		sim.apply(cl)
 	}
+	for ; snapped < len(ups); snapped++ {
+		preOf[snapped] = sim.state()
+	}
 	if pre == nil {
 		pre = sim.state()
+	}
+	dirEntries := func(st c20State, dir string) []string {
+		var names, ents []string
+		for p := range st {
+			d, n := filepath.Split(p)
+			if strings.TrimSuffix(d, "/") == dir {
+				names = append(names, n)
+			}
+		}
+		sort.Strings(names)
+		for _, n := range names {
+			ents = append(ents, n+":"+hx(st[filepath.Join(dir, n)]))
+		}
+		return ents
 	}
 	final := c20ReadDir(cfg)
 	if a, b := c20Listing(sim.state(), "")+"|"+c20Listing(sim.state(), "Users"), c20Listing(final, "")+"|"+c20Listing(final, "Users"); a != b {
@@ -1005,7 +1045,16 @@ func c20Case(c *Case, realKill bool) {
 
 	// (i) program correspondence for every update of the sequence
 	for i, u := range ups {
-		if res.Errors[i] != "" && len(perUpdate[i]) == 0 {
+		if u.Existing {
+			// renaming onto an existing login must be refused before anything is touched
+			if res.Errors[i] == "" || len(perUpdate[i]) != 0 {
+				c.Note("update", u)
+				c.Note("update_index", i)
+				c.Note("error_returned", res.Errors[i])
+				c.Note("calls", c20CallsCanon(perUpdate[i], "Users"))
+				c.Violation("rename-onto-existing-login", "renaming an account onto a login that already exists was not refused: the other account's file is overwritten (and a crash after the first rename leaves neither the old nor the new account set)")
+			}
+		} else if res.Errors[i] != "" && len(perUpdate[i]) == 0 {
 			continue
 		}
 		var data []byte
@@ -1015,7 +1064,7 @@ func c20Case(c *Case, realKill bool) {
 			}
 		}
 		spec, dir, _, _ := c20ModelSpec(u, data)
-		want := c.AskS("c20prog", spec)
+		want := c.AskS("c20prog", append([]string{spec}, dirEntries(preOf[i], dir)...)...)
 		got := c20CallsCanon(perUpdate[i], dir)
 		if got != want {
 			c.Note("update", u)
@@ -1060,21 +1109,8 @@ func c20Case(c *Case, realKill bool) {
 		}
 	}
 	spec, dir, vis, store := c20ModelSpec(last, data)
-	progOK := c20CallsCanon(lastCalls, dir) == c.AskS("c20prog", spec)
-	var ents []string
-	{
-		var names []string
-		for p := range pre {
-			d, n := filepath.Split(p)
-			if strings.TrimSuffix(d, "/") == dir {
-				names = append(names, n)
-			}
-		}
-		sort.Strings(names)
-		for _, n := range names {
-			ents = append(ents, n+":"+hx(pre[filepath.Join(dir, n)]))
-		}
-	}
+	ents := dirEntries(pre, dir)
+	progOK := c20CallsCanon(lastCalls, dir) == c.AskS("c20prog", append([]string{spec}, ents...)...)
 	cur := c20NewSim(pre)
 	verdicts := make([]string, len(lastCalls)+1)
 	for k := 0; k <= len(lastCalls); k++ {
@@ -1104,7 +1140,7 @@ func c20Case(c *Case, realKill bool) {
 		}
 		c.Dist(fmt.Sprintf("verdict/%s/%s", kindOf(last), v))
 	}
-	if len(lastCalls) > 0 && oldV[store] != newV[store] {
+	if (len(lastCalls) > 0 && oldV[store] != newV[store]) || (last.Existing && res.Errors[lastIdx] != "") {
 		c.Nontrivial(fmt.Sprintf("%s|%v|%s|%s", kindOf(last), last, c20Listing(pre, ""), c20Listing(pre, "Users")))
 	}
 	c.Dist("in-flight/" + kindOf(last))
